@@ -8,6 +8,7 @@ Gen/ConstructTab.lean (import-free):
   * `urlPrefixes`, `fileExtensions`, `shellChars`, `heuristicsMaxLen` : the literals of `_markup_is_url`,
                           `_markup_resembles_filename` and of the guard in `BeautifulSoup.__init__`, read from the
                           AST of the live functions' source (they are locals, not attributes);
+  * `liveWitnesses` : the live constructor run on the four witness inputs of the unrepaired mirrors;
   * `dammitRetriesOnEmpty` : whether the guard of UnicodeDammit's second pass is `if not u:` (AST of the live source);
   * `strictEncodeInHeuristics` : whether `_markup_resembles_filename` still encodes with the strict error handler;
   * field tables measured on the live objects by instrumentation (`__setattr__` spy + value snapshots):
@@ -99,6 +100,32 @@ def dammit_retries_on_empty():
     except Exception:
         pass
     return True
+
+
+def live_witnesses():
+    """The four inputs on which the unrepaired mirrors fail (Props/C06 witness theorems), run on the live code:
+    (label, returned a tree or ParserRejectedMarkup?)."""
+    from bs4 import BeautifulSoup
+    from bs4.exceptions import ParserRejectedMarkup
+    lim = sys.get_int_max_str_digits() if hasattr(sys, "get_int_max_str_digits") else 4300
+    n = (lim or 4300) + 1
+    probes = [("surrogate-in-short-markup", "a\udfffb", {}),
+              ("charref-digit-limit", "&#" + "9" * n + ";", {}),
+              ("charref-codec-error", b"<p>&#1;</p>-", {"from_encoding": "punycode"}),
+              ("tokenizer-valueerror", "<a href=\"&#" + "9" * n + ";\">", {})]
+    out = []
+    for label, markup, kw in probes:
+        try:
+            with warnings.catch_warnings():
+                warnings.simplefilter("ignore")
+                BeautifulSoup(markup, "html.parser", **kw)
+            ok = True
+        except ParserRejectedMarkup:
+            ok = True
+        except Exception:
+            ok = False
+        out.append((label, ok))
+    return out
 
 
 def _snap(v):
@@ -210,6 +237,9 @@ def gen_construct():
     t += f"def strictEncodeInHeuristics : Bool := {'true' if lit['strict'] else 'false'}\n"
     t += "/-- the second (errors=replace) pass of UnicodeDammit is entered on an empty decoding too (`if not u:`) -/\n"
     t += f"def dammitRetriesOnEmpty : Bool := {'true' if dammit_retries_on_empty() else 'false'}\n"
+    wit = ", ".join('("%s", %s)' % (l, "true" if ok else "false") for l, ok in live_witnesses())
+    t += "/-- the live constructor on the witness inputs of the unrepaired mirrors: ends in a tree or ParserRejectedMarkup? -/\n"
+    t += f"def liveWitnesses : List (String × Bool) := [{wit}]\n"
     t += f"def resetAssigns : List String := {lean_string_list(ft['reset'])}\n"
     t += f"def headerAssigns : List String := {lean_string_list(ft['header'])}\n"
     t += f"def attemptBuilderAssigns : List String := {lean_string_list(ft['builder'])}\n"
